@@ -190,9 +190,9 @@ pub fn tap_tree(p: &mut Prng, n_leaves: usize) -> TapTree {
 }
 
 pub fn raw_key(p: &mut Prng) -> raw::Key {
-    // rarely: the largest key the decoder admits (type byte + key data = MAX_VEC_SIZE = 4 000 000 bytes), or one byte less
-    if p.chance(1, 400) {
-        let n = 3_999_998 + p.usize_below(2);
+    // rarely: the largest key data the decoder admits (MAX_VEC_SIZE = 4 000 000 bytes), or one byte less
+    if p.chance(1, 150) {
+        let n = 3_999_999 + p.usize_below(2);
         return raw::Key { type_value: p.u8(), key: p.bytes(n) };
     }
     let n = p.len_biased(300);
